@@ -211,7 +211,7 @@ def generate(seed, tier):
         cfgs = []
         for isa in ('scalar', 'sse2', 'sse42', 'avx', 'avx2', 'avx512', 'avx512f'):
             cfgs += [Cfg(isa, '14', 'O2'), Cfg(isa, '17', 'O2'), Cfg(isa, '17', 'O3')]
-        for opt in ('-3', '-2', '-1', '1', '2'):
+        for opt in ('-1', '1', '2'):      # (-3/-2 unroll the whole contraction at compile time: a single translation unit of the extent sweep then needs >10 GB and >20 min)
             for isa, std in (('sse2', '14'), ('avx2', '17'), ('avx512', '14')):
                 cfgs.append(Cfg(isa, std, 'O2', macros=('CONTRACT_OPT=' + opt,)))
         cfgs += [Cfg('sse2', '14', 'O0'), Cfg('avx2', '17', 'O0')]
